@@ -21,7 +21,8 @@ class Wsrv:
             if rlimits:
                 import resource
                 for k, v in rlimits.items():
-                    resource.setrlimit(getattr(resource, k), (v, v))
+                    # CPU time: soft limit first (SIGXCPU), hard limit a little later (SIGKILL)
+                    resource.setrlimit(getattr(resource, k), (v, v + 5) if k == 'RLIMIT_CPU' else (v, v))
         self.p = subprocess.Popen(argv, stdin=subprocess.PIPE, stdout=subprocess.PIPE, stderr=self._errf,
                                   env=e, cwd=cwd, preexec_fn=pre if rlimits else None, bufsize=0)
         self.buf = b''
